@@ -120,6 +120,10 @@ func URLToClientConfig(s string) (*pb.ClientConfig, error) {
 	if u.Opaque != "" {
 		return nil, fmt.Errorf("URL is opaque")
 	}
+	if !strings.HasPrefix(s, "mieru://") {
+		// "mieru:" and "mieru:/" also parse with scheme "mieru".
+		return nil, fmt.Errorf("URL doesn't begin with mieru://")
+	}
 	b, err := base64.StdEncoding.DecodeString(s[8:]) // Remove "mieru://"
 	if err != nil {
 		return nil, fmt.Errorf("base64.StdEncoding.DecodeString() failed: %w", err)
